@@ -52,6 +52,7 @@ func runC14(c *Ctx) {
 	ruleWriterInvariant(c, p, "C14")
 	ruleVectoredEquiv(c, p, "C14.equiv")
 	ruleExitGuards(c, p, "C14.guard")
+	ruleNoCapInEncoders(c, p, "C14.lenonly")
 	c.R.Assumptions = append(c.R.Assumptions,
 		"net.Buffers.WriteTo writes the slices in order and consumes them; short writes are its concern (standard library)",
 		"decided: each induction step of the writer invariant and the language equality of the vectored and buffered encoders; not decided: byte values")
@@ -576,4 +577,41 @@ func ruleExitGuards(c *Ctx, p *core.Program, rule string) {
 		}
 	}
 	c.R.Floor(rule, cfg, n, 30)
+}
+
+// ruleNoCapInEncoders: what an encoder emits is sized by lengths, never by capacities.
+func ruleNoCapInEncoders(c *Ctx, p *core.Program, rule string) {
+	c.R.Rule(rule, "no EncodeColumn / WriteColumn / EncodeState of a column type evaluates cap() of column data (receiver-derived): the bytes between len and cap are not rows - they are zeroes or rows of an earlier batch - so a view or copy sized by the capacity emits them (the unsafe slice-header idiom scales the header's own Cap field and does not call cap)")
+	cfg := p.Cfg.Name
+	n := 0
+	for _, ct := range columnTypes(p) {
+		for _, mn := range []string{"EncodeColumn", "WriteColumn", "EncodeState"} {
+			fn := methodOf(p, ct, mn)
+			if fn == nil || fn.Blocks == nil {
+				continue
+			}
+			n++
+			key := ct.Obj().Name() + "." + mn
+			bad := false
+			fns := []*ssa.Function{fn}
+			fns = append(fns, fn.AnonFuncs...)
+			for _, f := range fns {
+				for _, call := range core.Calls(f) {
+					bi, ok := call.Common().Value.(*ssa.Builtin)
+					if !ok || bi.Name() != "cap" {
+						continue
+					}
+					ap := accessPath(call.Common().Args[0], 0)
+					if ap == "recv" || strings.HasPrefix(ap, "recv.") || strings.HasPrefix(ap, "free:") {
+						bad = true
+						c.R.Bad(rule, key, cfg, p.Pos(call.Pos()), "the encoder uses cap("+ap+"): output sized by a capacity carries bytes beyond the column's rows")
+					}
+				}
+			}
+			if !bad {
+				c.R.Ok(rule, key, cfg, p.Pos(fn.Pos()), "no capacity of column data used").Trivial = true
+			}
+		}
+	}
+	c.R.Floor(rule, cfg, n, 80)
 }
